@@ -232,7 +232,11 @@ def stream_io(c, N):
                 ops.append(o)
                 c.hit("io/op " + (o.get("kind") or "get"))
             # bounds last: the code replaces NaN in place (see probe)
+            pre_b = {nm: call(lambda: [float(x) for x in p.get_timeseries(nm, 0).values]) for nm in ("u_Max", "u_Min")}
             b = call(p.bounds)
+            post_b = {nm: call(lambda: [float(x) for x in p.get_timeseries(nm, 0).values]) for nm in ("u_Max", "u_Min")}
+            obs["store_changed_by_bounds"] = [nm for nm in pre_b if pre_b[nm][0] == "ok" and (
+                post_b[nm][0] != "ok" or not eqv(pre_b[nm][1], post_b[nm][1]))]
             obs["bounds"] = None if b[0] == "raise" else {
                 k: [None if s is None else ([float(x) for x in s.times], [float(x) for x in s.values]) for s in v]
                 for k, v in b[1].items() if k == "u"}
@@ -292,6 +296,9 @@ def stream_io(c, N):
                 elif o["check"] and o["kind"] in ("ts_bad", "ts_len", "arr_bad") and not (
                         o["kind"] == "arr_bad" and len(o["values"]) == len(ts) - k0):
                     c.fail("an inconsistent set_timeseries call is accepted with check_consistency", case, {"op": o, "got": r})
+            if obs.get("store_changed_by_bounds"):
+                c.fail("bounds() changes the stored bound series (a stored value is no longer what is retrieved)", case,
+                       obs["store_changed_by_bounds"])
             b = obs.get("bounds")
             if b and "u" in b:
                 for side, name, fill in ((0, "u_Min", -BIG), (1, "u_Max", BIG)):
@@ -321,20 +328,6 @@ def stream_io(c, N):
             c.disagree("set/get sequence", case, mo, res)
 
 
-def probe_bounds_mutation(c):
-    """C12-N1: IOMixin.bounds() replaces the NaNs of the stored <var>_Min/_Max series in place"""
-    P = make_io_class()
-    dts = [dtm(3600 * k) for k in range(4)]
-    p = P((dts, dts[1], [((0, "u_Max"), [1.0, 2.0, NAN, 4.0]), ((0, "c"), [0.0] * 4)]))
-    p.pre()
-    before = [float(x) for x in p.get_timeseries("u_Max").values]
-    p.bounds()
-    after = [float(x) for x in p.get_timeseries("u_Max").values]
-    c.known_probe("C12-N1", not eqv(before, after),
-                  "IOMixin.bounds() changes the stored series u_Max in place: %s -> %s (the missing value at "
-                  "t0+3600 is then retrieved/exported as float-max)" % (before, after))
-
-
 # ---------------------------------------------------------------------------------------------
 
 
@@ -352,15 +345,21 @@ def run(c):
         "stamps are whole seconds (datetime arithmetic exact); import stamps strictly increasing (validated by the mixins)",
         "file encoders/decoders as in C11 (trusted libraries, tied by C11's correspondence)",
         "IPOPT returns the same point for the same problem data (cross-back-end comparison at the CSV precision 1e-6)",
+        "NetCDF export: t0 is the first import stamp (NetCDFMixin.read always sets the reference datetime to it); with a "
+        "reference moved by a subclass the NetCDF axis would run past the import range (witness theorem), CSV/PI would not",
     ]
+    c.notes.append(
+        "Theorems cover the axis logic (DataStore seconds axis, horizon, history, bound series, set_timeseries "
+        "alignment, export stamps) for unbounded sizes; the values in the exports are tied by the oracle on real runs "
+        "(extract_results() vs the three files, and the files against each other).  Interpolation of variables with "
+        "their own coarser grid onto the export rows is C19's theorem, not repeated here.  Corpus: F15 (witness "
+        "theorem), F45, F46 inputs are ordinary cases.")
     c.prove()
     stream_io(c, c.n(250, 3000))
     tmp = tempfile.mkdtemp(prefix="c12_")
     try:
         MB.stream_backends(c, c.n(16, 150), tmp)
-        MB.stream_simulation(c, c.n(8, 60), tmp)
-        if not os.environ.get("VERIF_NO_PROBES"):  # development switch only
-            probe_bounds_mutation(c)
-            MB.probes(c, tmp)
+        MB.stream_simulation(c, c.n(12, 80), tmp)
+        MB.corpus(c, tmp)
     finally:
         shutil.rmtree(tmp, ignore_errors=True)
